@@ -122,6 +122,21 @@ theorem mathFold_carries (e : Env) (r : Rec) (hr : RecOK r Q) (hrM : RecOKM r QM
     rw [specAllL_cons, ← Streams.app_assoc]
     exact this
 
+theorem specAll_empty_math_leaf (a : Attrs) : specAll (.leaf .math "" a) = {} := by
+  apply Streams.ext' <;> simp [specAll, specToks, specCmts, specProse, specLit, specVerb, isCommentKind, Pretty.keepOf]
+
+/-- `convert_math` on an empty body. -/
+theorem convMath_leaf_carries (e : Env) (r : Rec) (ctx : Ctx) (a : Attrs) :
+    Post (convMath e r ctx (.leaf .math "" a)) (fun d => Carries d (specAll (.leaf .math "" a))) := by
+  rw [specAll_empty_math_leaf]
+  unfold convMath
+  refine Post.bind (Q := fun _ => True) (fun _ _ _ _ => trivial) (fun _ _ => ?_)
+  split
+  · refine Post.pure ((Carries.mkText e.wd .verbatim _).congr ?_)
+    apply Streams.ext' <;> simp [tagS, Pretty.charsOf, ANode.intoText]
+  · simp only [ANode.children, List.foldlM_nil, pure_bind]
+    exact Post.pure Carries.nil
+
 /-- **`convert_math`**: a math body carries exactly what it prescribes. -/
 theorem convMath_carries (e : Env) (r : Rec) (hr : RecOK r Q) (hrM : RecOKM r QM) (ctx : Ctx) (hm : ctx.mode = .math)
     (cs : List ANode) (a : Attrs) (hseq : MathSeqOK Q QM false cs) :
@@ -169,11 +184,11 @@ def EqRest (QM : ANode → Prop) : List ANode → Prop
   | c :: cs =>
     ANode.tokensAreLeaves c = true ∧
     ((cs = [] ∧ c.kind = .dollar) ∨
-     (cs ≠ [] ∧ ((c.kind = .math ∧ (∃ mcs a, c = .inner .math mcs a) ∧ QM c) ∨ c.kind = .space ∨ isCommentKind c.kind = true) ∧ EqRest QM cs))
+     (cs ≠ [] ∧ ((c.kind = .math ∧ ((∃ mcs a, c = .inner .math mcs a) ∨ (∃ a, c = .leaf .math "" a)) ∧ QM c) ∨ c.kind = .space ∨ isCommentKind c.kind = true) ∧ EqRest QM cs))
 
 def eqChildOK (QM : ANode → Prop) (x : ANode) : Prop :=
   ANode.tokensAreLeaves x = true ∧
-  ((x.kind = .math ∧ (∃ mcs a, x = .inner .math mcs a) ∧ QM x) ∨ x.kind = .dollar ∨ x.kind = .space ∨ isCommentKind x.kind = true)
+  ((x.kind = .math ∧ ((∃ mcs a, x = .inner .math mcs a) ∨ (∃ a, x = .leaf .math "" a)) ∧ QM x) ∨ x.kind = .dollar ∨ x.kind = .space ∨ isCommentKind x.kind = true)
 
 theorem specAll_dollar_node (c : ANode) (h : ANode.tokensAreLeaves c = true) (hk : c.kind = .dollar) :
     specAll c = tagS .syn "$" := by
@@ -231,7 +246,7 @@ theorem equationItem_ok (e : Env) (r : Rec) (hrM : RecOKM r QM) (cs : List ANode
   by_cases hk : x.kind = .math
   · have hne : (x.kind != .math) = false := by simp [hk]
     simp only [hne, Bool.false_eq_true, ↓reduceIte]
-    have hqm : (∃ mcs a, x = .inner .math mcs a) ∧ QM x := by
+    have hqm : ((∃ mcs a, x = .inner .math mcs a) ∨ (∃ a, x = .leaf .math "" a)) ∧ QM x := by
       rcases hcase with h | h | h | h
       · exact h.2
       · rw [hk] at h; cases h
@@ -241,11 +256,13 @@ theorem equationItem_ok (e : Env) (r : Rec) (hrM : RecOKM r QM) (cs : List ANode
     split
     · rename_i hlen
       refine Post.pure ?_
-      obtain ⟨⟨mcs, a, rfl⟩, _⟩ := hqm
-      have : mcs = [] := by simpa [ANode.children] using hlen
-      subst this
-      show semEq _ = triviaS _
-      rw [hs, specAll_empty_math]; rfl
+      rcases hqm.1 with ⟨mcs, a, rfl⟩ | ⟨a, rfl⟩
+      · have : mcs = [] := by simpa [ANode.children] using hlen
+        subst this
+        show semEq _ = triviaS _
+        rw [hs, specAll_empty_math]; rfl
+      · show semEq _ = triviaS _
+        rw [hs, specAll_empty_math_leaf]; rfl
     · refine Post.bind (hrM.math c x hm hk hqm.2) (fun body hb => Post.pure ?_)
       show Carries _ (semEq x)
       rw [hs]
